@@ -176,6 +176,32 @@ def run(chk):
             if obs != helper_ref(kind, a, b):
                 chk.impl_violation(f"ordered_{kind} differs from the ordered set result",
                                    {"kind": "impl-violation", "helper": kind, "a": a, "b": b, "observed": obs, "expected": helper_ref(kind, a, b)}, {"op": kind})
+            # the same call with the arguments given as OTHER collections (an OrderedSet, a tuple, a set / dict keys for the second):
+            # the result is ordered by the first argument (then the second), whatever the containers are, and no argument is changed
+            from data_algebra.OrderedSet import OrderedSet
+            da = list(dict.fromkeys(a))
+            for ca_name, ca in (("OrderedSet", OrderedSet(a)), ("tuple", tuple(a)), ("list", list(a))):
+                for cb_name, cb in (("OrderedSet", OrderedSet(b)), ("set", set(b)), ("dict_keys", dict.fromkeys(b).keys()), ("tuple", tuple(b))):
+                    if kind == "union" and cb_name == "set":
+                        continue                      # elements only in an unordered second argument have no defined order
+                    before_a, before_b = list(ca), sorted(cb)
+                    try:
+                        o2 = list(f(ca, cb))
+                    except Exception as e:          # noqa
+                        o2 = ["<error %s>" % type(e).__name__]
+                    exp2 = helper_ref(kind, da, list(dict.fromkeys(b)) if cb_name != "set" else sorted(cb))
+                    bad = None
+                    if kind == "union" or cb_name != "set":
+                        if o2 != exp2:
+                            bad = f"ordered_{kind}({ca_name}, {cb_name}) is not ordered by its first argument (then its second)"
+                    elif o2 != [x for x in da if (x in cb) == (kind == "inter")]:
+                        bad = f"ordered_{kind}({ca_name}, {cb_name}) is not ordered by its first argument"
+                    if list(ca) != before_a or sorted(cb) != before_b:
+                        bad = f"ordered_{kind}({ca_name}, {cb_name}) changed one of its arguments"
+                    chk.count((kind, ca_name, cb_name, tuple(a), tuple(b)), nontrivial=bool(a and b))
+                    if bad:
+                        chk.impl_violation(bad, {"kind": "impl-violation", "helper": kind, "a": a, "b": b, "a_container": ca_name, "b_container": cb_name,
+                                                 "observed": o2, "expected": exp2, "a_after": list(ca)}, {"op": kind, "containers": True})
             terms.append("%s %s %s %s" % ({"union": "KUnion", "inter": "KInter", "diff": "KDiff"}[kind], zl(a), zl(b), zl(obs)))
             meta.append({"helper": kind, "a": a, "b": b, "observed": obs})
             if i < 8:
